@@ -86,7 +86,7 @@ def gen_raw(rng):
     return {'kind': 'raw', 'data': d.hex()}
 
 
-TEXTS = ['h\xe9llo w\xf6rld', 'plain ascii', '你好', 'a' * 100 + '\xe9', 'tab\there \xe9 ', '=equals= \xe9', '.\xe9\r\n.dot',
+TEXTS = ['h\xe9llo w\xf6rld', 'plain ascii', 'del \x7f is ascii', '你好', 'a' * 100 + '\xe9', 'tab\there \xe9 ', '=equals= \xe9', '.\xe9\r\n.dot',
          'trailing space \xe9 \r\nnext', 'x' * 76 + '\r\n\xe9']
 
 
